@@ -373,23 +373,30 @@ def dedupVals : List (BitVec 64) → List (BitVec 64)
   | [] => []
   | x :: xs => x :: (dedupVals xs).filter (· != x)
 
-/-- `combinePoints` for the scratch entries of one id -/
-def combine (c : Ctx) (id : BitVec 64) (es : List Scratch) : Entry :=
-  let point := es.foldl (fun acc e => match e with
+/-- the `PointTag` entry among the scratch entries of an id (the last one wins) -/
+def scratchPoint (es : List Scratch) : Option Bytes :=
+  es.foldl (fun acc e => match e with
     | .point d => some d
     | _ => acc) none
-  let paths := es.filterMap fun e => match e with
-    | .path r => some r
-    | _ => none
-  let rels := es.filterMap fun e => match e with
-    | .rel r => some r
-    | _ => none
+
+/-- the record `combinePoints` emits for an id -/
+def combineWith (c : Ctx) (id : BitVec 64) (point : Option Bytes) (paths rels : List Reference) : Entry :=
   match point with
   | some d =>
     match paths, rels with
     | [p], [] => ⟨id, 0#64, d ++ Reference.enc (tnPath c.osm) p⟩                   -- PointTagCommon
     | _, _ => ⟨id, 1#64, d ++ PointReferences.enc c.osm ⟨paths, rels⟩⟩            -- PointTagFull
   | none => ⟨id, 2#64, PointReferences.enc c.osm ⟨paths, rels⟩⟩                  -- PointTagReferencesOnly
+
+/-- `combinePoints` for the scratch entries of one id -/
+def combine (c : Ctx) (id : BitVec 64) (es : List Scratch) : Entry :=
+  combineWith c id (scratchPoint es)
+    (es.filterMap fun e => match e with
+      | .path r => some r
+      | _ => none)
+    (es.filterMap fun e => match e with
+      | .rel r => some r
+      | _ => none)
 
 /-! ## path / area / relation records -/
 
@@ -650,14 +657,17 @@ def decodeFeature (strs nt : List Str) (hdr : Namespaces) (id : FID) (data : Byt
 def find (ix : Index) (id : FID) : Option (Option Feature) :=
   (lookup ix id).map fun (b, e) => decodeFeature ix.strs ix.nt b.hdr id e.data
 
+/-- the order `Uint64Map` iterates in: buckets (`id mod 2^bits`) in order, ids ascending within a bucket -/
+def iterLe (bits : Nat) (x y : Entry) : Bool :=
+  decide (x.id.toNat % 2 ^ bits < y.id.toNat % 2 ^ bits) ||
+    (x.id.toNat % 2 ^ bits == y.id.toNat % 2 ^ bits && decide (x.id.toNat ≤ y.id.toNat))
+
+def iterInsert (bits : Nat) (e : Entry) : List Entry → List Entry
+  | [] => [e]
+  | x :: xs => if iterLe bits e x then e :: x :: xs else x :: iterInsert bits e xs
+
 /-- iteration order of a block: buckets in order, ids ascending within a bucket -/
-def iterIds (b : Block) : List Entry :=
-  let key (e : Entry) : Nat × Nat := (e.id.toNat % 2 ^ b.bits, e.id.toNat)
-  let le (x y : Entry) : Bool := (key x).1 < (key y).1 || ((key x).1 == (key y).1 && (key x).2 ≤ (key y).2)
-  let rec ins (e : Entry) : List Entry → List Entry
-    | [] => [e]
-    | x :: xs => if le e x then e :: x :: xs else x :: ins e xs
-  b.entries.foldr ins []
+def iterIds (b : Block) : List Entry := b.entries.foldr (iterInsert b.bits) []
 
 /-- `EachFeature`: the ids in emission order (one goroutine) -/
 def each (ix : Index) : List FID :=
@@ -770,6 +780,18 @@ def featureOK (fs : List Feature) (f : Feature) : Bool :=
         | .loops _ => true
   | _ => f.tags.all (·.val.plain) &&
       f.members.all fun m => m.id.valid && decide (m.id.typ < 4) && (m.id.typ != 0 || decide (0 < blockCount fs m.id.ns 0))
+
+/-- finding class `point-member-without-block`: a relation lists a point whose namespace has no point block
+(no point and no path point in it): `emitPoints` → `Reserve` panics "No builder for type point" -/
+def hasPointMemberWithoutBlock (fs : List Feature) : Bool :=
+  fs.any fun r => r.id.typ == 3 && r.members.any fun m => m.id.typ == 0 && blockCount fs m.id.ns 0 == 0
+
+/-- finding class `list-tag-on-non-path`: a list-valued tag on a feature without a `path` tag: `toCompactValue`
+gets `GeometryEncodingInvalid` and panics "not implemented" -/
+def hasListTagOnNonPath (fs : List Feature) : Bool :=
+  fs.any fun f => (getTag f.tags kPath).isNone && f.tags.any fun t => match t.val with
+    | .list _ => true
+    | _ => false
 
 /-- no two features share an id -/
 def idsDistinct : List Feature → Bool
